@@ -87,6 +87,34 @@ def oracle(ctx, kind, p):
                 ok, text_lf = ctx.call(penman.dumps, gs, model=model, indent=indent, clause='dumps')
                 if not ok:
                     continue
+                ok_g, text_gen = ctx.call(penman.dumps, (g for g in gs), model=model, indent=indent,
+                                          clause='dumps(generator)')
+                if ok_g and text_gen != text_lf:
+                    ctx.fail('dumps(generator)!=dumps(list)', detail={'list': text_lf[:300], 'generator': text_gen[:300]})
+                if indent == -1 and p['i'] % 3 == 0 and gs:
+                    # a text that does not start with a graph: whatever it means, it means the same
+                    # in every container
+                    for pre in ('\ufeff', '\u2028', 'x ', '\x0c', ') '):
+                        t2 = pre + text_lf
+                        p2 = os.path.join(tmpdir, 'pre.txt')
+                        with open(p2, 'w', encoding='utf-8', newline='') as fh:
+                            fh.write(t2)
+                        outs = {}
+                        for cname, f in (('str', lambda: penman.loads(t2, model=model)),
+                                         ('lines', lambda: list(penman.iterdecode(R.split_lines(t2), model=model))),
+                                         ('StringIO', lambda: penman.load(io.StringIO(t2), model=model)),
+                                         ('file', lambda: penman.load(p2, model=model, encoding='utf-8'))):
+                            try:
+                                outs[cname] = ('ok', sig(f()))
+                            except penman.DecodeError as e:
+                                outs[cname] = ('DecodeError', e.lineno, e.offset)
+                            except Exception as e:
+                                outs[cname] = ('exc', type(e).__name__)
+                            ctx.count('events')
+                        if len({repr(v) for v in outs.values()}) > 1:
+                            ctx.fail('containers-disagree(prefixed text)', mech=repr(pre),
+                                     detail={'prefix': pre, 'text': t2[:200],
+                                             'outcomes': {k: repr(v)[:120] for k, v in outs.items()}})
                 for nl in ('LF', 'CRLF', 'CR', 'mixed'):
                     if nl == 'LF':
                         text = text_lf
